@@ -65,4 +65,19 @@ def connectorRead : Recv → Res (Option Frame)
   | .dgram a p => .ok (some { addr := some a, body := p })
   | .error => .err "recv"
 
+/-- the frame branch of the relay loop (`copy_half`): every frame the reader yields is written to the other side; the
+    loop ends when the reader reports the end of its source (`none`) or an error — never because of what a write
+    returned -/
+def relayFrames : List (Res (Option Frame)) → List Frame
+  | [] => []
+  | .ok (some f) :: rest => f :: relayFrames rest
+  | _ => []
+
+/-- the variant of seeded change C10d: the writer's byte count doubles as the end-of-source signal (a plain UDP socket
+    reports 0 bytes for an empty datagram) -/
+def relayFramesLenStops : List (Res (Option Frame)) → List Frame
+  | [] => []
+  | .ok (some f) :: rest => if f.body.length > 0 then f :: relayFramesLenStops rest else [f]
+  | _ => []
+
 end Redproxy.Udp
